@@ -20,6 +20,9 @@ def main():
     for n in names:
         d = os.path.join(ROOT, n)
         meta = json.load(open(os.path.join(d, "meta.json")))
+        if meta.get("obsolete"):
+            print("%-40s obsolete: %s" % (n, meta["obsolete"][:100]), flush=True)
+            continue
         prop = meta["property"]
         checks = [prop] + [c for c in meta.get("also_check", [])]
         meta["detected_by"] = []
